@@ -32,3 +32,17 @@ def assume(cond):
 def exc_sig(e):
     """A compact description of an exception (type only; messages may hold symbolic operands)."""
     return type(e).__name__
+
+
+def fix(raw, length):
+    """assume len(raw) == length and (under CrossHair) re-wrap the input so that slices with symbolic
+    bounds stay symbolic (vlib/symraw.py); a no-op on concrete bytes"""
+    assume(len(raw) == length)
+    try:
+        from crosshair.statespace import optional_context_statespace
+        if optional_context_statespace() is None:
+            return raw
+    except Exception:
+        return raw
+    from vlib.symraw import fix as _fix
+    return _fix(raw, length)
